@@ -139,7 +139,10 @@ def execute(case, stats):
             V("frontend-exception", phase, {"error": f"{type(e).__name__}: {e}"[:300], "tb": traceback.format_exc()[-400:]})
             return res
         if len(calls) != 1:
-            raise HarnessError(f"HARNESS-UNSUPPORTED: front-end made {len(calls)} kernel calls")
+            # the front-end does not go through the evaluate_on_grid seam as known here: nothing to schedule,
+            # the returned Plot is judged at user level only
+            stats.inc("probe.kernel_seam_not_used")
+            calls = [{"args": None, "result": None, "sim": Sim(T=1)}]
         runs.append((plot, calls[0]))
         if phase == "t1":
             dry_sim = calls[0]["sim"]
@@ -228,7 +231,7 @@ def judge_thick(case, plot, call, cells, loc, vals, origin_s, nuv, V, stats, dg)
     try:
         nz_obs = int(call["args"]["grid_positions_in_original_basis"].shape[0])
     except Exception:
-        raise HarnessError("HARNESS-UNSUPPORTED: cannot observe the depth resolution at the kernel seam")
+        nz_obs = None  # not observable (seam unused or kernel signature changed): every admissible count is tried below
     res = view["resolution"]
     if isinstance(res, dict) and "z" in res:
         admissible = {res["z"]}
@@ -258,6 +261,22 @@ def judge_thick(case, plot, call, cells, loc, vals, origin_s, nuv, V, stats, dg)
                 admissible |= {int(np.floor(r)), int(np.ceil(r))}
     if view["dx"] is None:
         admissible = None  # automatic window: pixel size derived from the data extent, judged through the returned centres only
+    if nz_obs is None:
+        if admissible is None:
+            stats.inc("ambig.depth_resolution_not_observable")
+            return {"n_good": 0, "n_amb": 0, "nz": 0, "n_hit": 0}
+        # accept the first admissible count under which the whole map is consistent
+        last = None
+        for cand in sorted(admissible):
+            trial = []
+            call2 = {"args": {"grid_positions_in_original_basis": np.zeros((cand, 1, 1, 3))}}
+            info = judge_thick(case, plot, call2, cells, loc, vals, origin_s, nuv, lambda *a: trial.append(a), core.Stats(), dg)
+            if not trial:
+                return info
+            last = trial
+        for a in last:
+            V(*a)
+        return None
     if admissible is not None and nz_obs not in admissible:
         V("depth-grid", "number-of-samples", {"observed": nz_obs, "admissible": sorted(admissible), "dz": dz})
         return None
@@ -396,7 +415,7 @@ def finalize(tier, base_seed, stats, viols):
         case = generate(rng, tier)
         case["sched"] = {"T": 1, "partition": {"kind": "static-equal"}, "policy": {"kind": "seq"}, "sched_seed": 0}
         res = execute(case, core.Stats())
-        if res["violations"] or "kernel_args" not in res:
+        if res["violations"] or res.get("kernel_args") is None:
             continue
         args = res["kernel_args"]
         mod, orig, ks = _k(MODNAME, KATTR)
